@@ -53,6 +53,7 @@ func C20(c *Ctx) {
 	r.Rule("R20.3", "leader reset: on justElected the mempool's batch sequence number is reset to lastExec in the Ready handling; every batch-generation site of the raft node is behind an isLeader() test.")
 	r.Rule("R20.4", "applied-index value: the index persisted by reportState is the one looked up in blockAppliedIndex under the reported state's height, and publishEntries records (batch height -> index of the entry that carried it).")
 	r.Rule("R20.5", "pool confinement: the transaction pool's unsynchronised methods (GetTransaction, ProcessTransactions, GenerateBlock, CommitTransactions, ...) are called from exactly one goroutine root per ordering node (the main event loop).")
+	r.Rule("R20.7", "the snapshot names the log position it is paired with: the payload handed to TakeSnapshot(appliedIndex, ..) carries the height minted from the entries up to that index (n.lastExec), set in getSnapshot from that field and from nothing the executor or the ledger reports - their height lags behind the minted height under load, and a follower restored from such a snapshot would re-mint heights it already has or skip blocks.")
 	r.Rule("R20.6", "commit notifications: every chain-state report received by an ordering node reaches mempool.CommitTransactions on every path (raft reportState and the solo loop agree).")
 	r.NotDecided = append(r.NotDecided, "Raft safety (dependency), message faults and crash points, identical content across replicas, the arithmetic of sync ranges (calcRangeHeight), whether generated batches can be nil (value-level)")
 
@@ -413,6 +414,7 @@ func C20(c *Ctx) {
 		}
 		r.Check(ok, "R20.6", "solo: every state report commits to the pool", c.P.Pos(sl.Pos()), "CommitTransactions(state) on every path of the stateC case", "the solo node forwards a chain-state report to the pool only on some paths (e.g. only for heights divisible by 10): committed transactions stay in the pool, are reported as pending and fill it up")
 	}
+	c.c20Snapshot()
 }
 
 func dedup(in []string) []string {
@@ -436,4 +438,54 @@ func followsInIteration(fn *ssa.Function, call ssa.Instruction, isB InstrPred) b
 	}
 	// reaching the call itself again (next iteration) without passing B
 	return !rs.Has(call)
+}
+
+
+// c20Snapshot: R20.7.
+func (c *Ctx) c20Snapshot() {
+	r := c.R
+	gs := c.fn("R20.7", "pkg/order/etcdraft.(*Node).getSnapshot")
+	if gs == nil {
+		return
+	}
+	n := 0
+	for _, call := range core.Calls(gs) {
+		o := core.CalleeObj(call)
+		if o == nil || o.Name() != "Marshal" {
+			continue
+		}
+		n++
+		recv := core.Receiver(call)
+		root := rootObject(recv)
+		al, isLocal := root.(*ssa.Alloc)
+		if !isLocal {
+			r.Bad("R20.7", "getSnapshot: payload height is the minted height", c.P.Pos(call.Pos()), "the snapshot payload is not built in getSnapshot from the node's own fields (it is obtained from "+root.String()+"): a chain meta reported by the executor / ledger lags behind the height minted up to appliedIndex")
+			continue
+		}
+		okH, other := false, ""
+		for _, b := range gs.Blocks {
+			for _, in := range b.Instrs {
+				st, isSt := in.(*ssa.Store)
+				if !isSt {
+					continue
+				}
+				if st.Addr == ssa.Value(al) {
+					// whole-value store: the struct comes from somewhere else
+					if cc, _ := core.CallOf(st.Val); cc != nil {
+						other = "the chain meta is the result of " + shortCallee(cc)
+					}
+					continue
+				}
+				if _, f, base, ok := core.FieldOf(st.Addr); ok && core.Strip(base) == ssa.Value(al) && f == "Height" {
+					if core.Mentions(st.Val, fieldLoad("Node", "lastExec")) {
+						okH = true
+					} else {
+						other = "Height is set from something other than n.lastExec"
+					}
+				}
+			}
+		}
+		r.Check(okH && other == "", "R20.7", "getSnapshot: payload height is the minted height", c.P.Pos(call.Pos()), "ChainMeta{Height: n.lastExec}", "the height in the raft snapshot is not the height minted up to appliedIndex ("+other+"): it is paired with appliedIndex in TakeSnapshot, so a follower installed from it resumes from the wrong height")
+	}
+	r.Floor("R20.7", "snapshot payloads", n, 1)
 }
